@@ -37,10 +37,10 @@ STUBS = [
 OUTSIDE = ['more than 2 parts', 'contents longer than 3 bytes', 'nested multipart', 'chunk alignment effects beyond the forced small chunk size']
 BUDGET = {'quick': 300, 'thorough': 900}
 
-NAMES = [b'a', b'5\\" floppy', b'a;b', b'n m']
-NAMES_DEC = ['a', '5" floppy', 'a;b', 'n m']
-FILENAMES = [None, b'f.txt', b'disk.img', b"UTF-8''%C3%A9.txt"]
-FILENAMES_DEC = [None, 'f.txt', 'disk.img', '\xe9.txt']
+NAMES = [b'a', b'5\\" floppy', b'a;b', b'n m', b'\xc3\xa9']                   # the last: raw UTF-8, as browsers send it
+NAMES_DEC = ['a', '5" floppy', 'a;b', 'n m', '\xe9']
+FILENAMES = [None, b'f.txt', b'disk.img', b"UTF-8''%C3%A9.txt", b'\xc3\xa9.txt']
+FILENAMES_DEC = [None, 'f.txt', 'disk.img', '\xe9.txt', '\xe9.txt']
 CTYPES = [None, b'text/plain', b'application/octet-stream', b'text/plain; charset=latin-1']
 
 
@@ -101,6 +101,14 @@ def _consume(part, how, k, asgi):
     return ('all', part.stream.read())
 
 
+def _ident(part, fn_first):
+    """(name, filename, content_type), read in either order: the two accessors share one parsed Content-Disposition"""
+    if fn_first:
+        f = part.filename
+        return (part.name, f, part.content_type)
+    return (part.name, part.filename, part.content_type)
+
+
 def parse(body, boundary, cut, opts, hows, ks, asgi, chunk=None):
     if chunk is None:
         chunk = 8 if len(boundary) <= 2 else 16   # the delimiter CRLF--boundary must fit into one chunk
@@ -118,7 +126,7 @@ def parse(body, boundary, cut, opts, hows, ks, asgi, chunk=None):
             i = 0
             async for part in form:
                 how = hows[i] if i < len(hows) else 0
-                out.append((part.name, part.filename, part.content_type, _consume(part, how, ks[i] if i < len(ks) else 0, True)))
+                out.append(_ident(part, (len(boundary) + i) % 2 == 0) + (_consume(part, how, ks[i] if i < len(ks) else 0, True),))
                 i += 1
         try:
             run_coro(go())
@@ -132,7 +140,7 @@ def parse(body, boundary, cut, opts, hows, ks, asgi, chunk=None):
     try:
         for part in form:
             how = hows[i] if i < len(hows) else 0
-            out.append((part.name, part.filename, part.content_type, _consume(part, how, ks[i] if i < len(ks) else 0, False)))
+            out.append(_ident(part, (len(boundary) + i) % 2 == 0) + (_consume(part, how, ks[i] if i < len(ks) else 0, False),))
             i += 1
     except MultipartParseError as e:
         return ('error', e.description, out)
@@ -250,9 +258,7 @@ def partitions(tier, seed):
     q = tier == 'quick'
 
     def cuts(body):
-        # transport cut positions: around every delimiter start/end and header end (quick) / everywhere (thorough)
-        if not q:
-            return '0 <= cut <= %d' % len(body)
+        # transport cut positions: around every delimiter start/end and header end
         pts = set([0])
         for needle in (b'--', b'\r\n\r\n', b'\r\n--'):
             i = body.find(needle)
@@ -261,11 +267,13 @@ def partitions(tier, seed):
                     if 0 < i + d < len(body):
                         pts.add(i + d)
                 i = body.find(needle, i + 1)
-        pts = sorted(pts)[::2][:12]
+        # (a free cut position 0..len(body) made every path of the thorough tier run into the per-path timeout: the cut
+        #  menu is kept in both tiers, thinned for quick)
+        pts = sorted(pts)[::2][:12] if q else sorted(pts)
         return 'cut in %r' % (tuple(pts),)
     # one part: content bytes free, consumption + limits + cut symbolic
     one = [(0, 0, 0, 2, b'b', b'', b'\r\n'), (1, 1, 1, 2, b'b', b'', b'\r\n'), (2, 2, 2, 1, b'bb', b'pre\r\n', b''), (3, 3, 3, 2, b'b', b'', b'\r\nepi'),
-           (0, 1, 1, 3, b'b' * 10, b'', b'\r\n')]
+           (0, 1, 1, 3, b'b' * 10, b'', b'\r\n'), (4, 4, 1, 1, b'bb', b'', b'\r\n'), (4, 4, 0, 1, b'b', b'', b'\r\n')]
     for si, (ni, fi, ci, ln, bd, pre, epi) in enumerate(one):
         for asgi in ((si % 2,) if q else (0, 1)):
             sample = encode([(ni, fi, ci, b'x' * ln)], bd, pre, epi)
@@ -276,9 +284,9 @@ def partitions(tier, seed):
                 P.append(_part('one_%s_s%d_how%d' % ('asgi' if asgi else 'wsgi', si, how), 'c0: bytes, k: int, cut: int, max_buf: int, max_count: int',
                                ['len(c0) == %d' % ln, 'k >= -1', cuts(sample), '0 <= max_buf <= %d' % (ln + 1), '0 <= max_count <= 2'],
                                'form_case(%d, [(%d, %d, %d, c0)], %r, %r, %r, cut, [%d], [k], max_count, max_buf, 8192)' % (asgi, ni, fi, ci, bd, pre, epi, how),
-                               150 if q else 900,
+                               150 if q else 500,
                                '1-part form (name %r, filename %r, content type %r, boundary %r, preamble %r, epilogue %r): %d free content bytes, '
-                               'consumption #%d with size any int >= -1, transport cut anywhere in the %d-byte body, max_body_part_buffer_size '
+                               'consumption #%d with size any int >= -1, transport cut at a delimiter / header-end edge (+-1) of the %d-byte body, max_body_part_buffer_size '
                                '0..%d, max_body_part_count 0..2 symbolic' % (NAMES_DEC[ni], FILENAMES_DEC[fi], CTYPES[ci], bd, pre, epi, ln, how, blen, ln + 1)))
     # alignment sweep: a preamble of 0..7 bytes shifts every delimiter across the (forced) 8-byte buffer edge; only the content
     # bytes and the read size are symbolic here, so each alignment is cheap
